@@ -1,11 +1,9 @@
-(* C06 — proofs about the model (see Properties.v for the exported statements). *)
-From Coq Require Import List ZArith Bool Lia.
-From Verif Require Import C06.Model C06.Spec.
-Import ListNotations.
-Open Scope Z_scope.
-
-Lemma split_div_le q m : 0 <= q -> 0 < m -> split 0 1 q m <= q.
-Proof.
-  intros Hq Hm. unfold split. cbn [Z.eqb].
-  apply Z.div_le_upper_bound; nia.
-Qed.
+(* C06 — index of the proof files (see Properties.v for the exported statements):
+     Proofs_base    list/set helpers            Proofs_numa   NUMA split
+     Proofs_ledger  ledger add/release/update   Proofs_gen    candidate generators
+     Proofs_take, Proofs_take2  takeCPUs        Proofs_alloc  results, policies, overshoot
+     Proofs_hist    Allocate and the history invariants
+     Proofs_spec    exact NUMA sums of Allocate, soundness of the deciders of Spec.v
+     Proofs_main    takePreferredCPUs complete; the model passes take_code *)
+From Verif Require Export C06.Proofs_base C06.Proofs_numa C06.Proofs_ledger C06.Proofs_gen
+  C06.Proofs_take C06.Proofs_take2 C06.Proofs_alloc C06.Proofs_hist C06.Proofs_spec C06.Proofs_main.
